@@ -16,8 +16,8 @@ d) transform_where_clause_for_event_type (used by the per-type sub-query push-do
    Followed through same-module helpers and Option::map-style closures, so extracting the leaf rewrite into a helper is not reported.
 c) match_sequences tests `all_matches.len() >= limit` before processing a group and truncates after extending (LIMIT bounds the number of matched sequences).
 """
-FLOOR = 16
-REQUIRED = ["C15.a1", "C15.a2", "C15.a3", "C15.b", "C15.c", "C15.d", "C15.e", "C15.f", "C15.g", "C15.h", "C15.i", "C15.j", "C15.k", "C15.l", "C15.m", "C15.n"]
+FLOOR = 18
+REQUIRED = ["C15.a1", "C15.a2", "C15.a3", "C15.b", "C15.c", "C15.d", "C15.e", "C15.f", "C15.g", "C15.h", "C15.i", "C15.j", "C15.k", "C15.l", "C15.m", "C15.n", "C15.o", "C15.p"]
 
 
 def run(ctx):
@@ -425,6 +425,43 @@ def run(ctx):
             bad.append(("float-where-through-i64:memtable", "NumericCondition::evaluate_event_direct reads a memtable row's field as i64 only: a sub-query of a sequence drops unflushed rows with fractional values", None))
         return bad
     ctx.run("C15.n", "K10 READS", "SequenceWhereEvaluator::evaluate_row / NumericCondition::evaluate_event_direct", "fractional float values take part in a sequence WHERE", n_)
+
+    def o_(inst):
+        # a link value is keyed by what it is: the text of a string column must not be read as a number first
+        e = F.fn("ColumnarGrouper::extract_link_value")
+        lf = lambda c_: has_origin(e.origins(c_.args[1]), None, proj_contains=[".link_field"])
+        gi = [c_ for c_ in e.calls if not c_.cleanup and re.search(r"get_i64_at$", c_.nname) and lf(c_)]
+        gs = [c_ for c_ in e.calls if not c_.cleanup and re.search(r"get_str_at$", c_.nname) and lf(c_)]
+        inst.sites = [sp(e, c_.bb) + " i64 reading" for c_ in gi] + [sp(e, c_.bb) + " text reading" for c_ in gs]
+        if not gs:
+            raise AnchorMissing("text reading of the link field in extract_link_value")
+        seen = e.reach(0, cut_blocks=[c_.bb for c_ in gs])
+        if any(c_.bb in seen for c_ in gi):
+            return [("link-text-read-as-number", "extract_link_value asks for the i64 reading of the link column before its text: the merger's zones hold every column as text and get_i64_at parses it, so the string link values \"007\" and \"7\" (or \"1.50\" and \"1.5\" after FLUSH) fall into one group", sp(e, gi[0].bb))]
+        return []
+    ctx.run("C15.o", "K10 READS", "ColumnarGrouper::extract_link_value", "string link values are grouped by their text", o_)
+
+    def p_(inst):
+        # pushing a WHERE down to one event type: an OR with a side that belongs to the other type restricts nothing for
+        # this type (keeping the own side alone turns `A.x OR B.y` into `A.x AND B.y` once both halves are applied)
+        b = F.fn("sequence::utils::transform_where_clause_for_event_type")
+        sw = param_enum_switches(b, r"types::Expr$", b.local_name(1))
+        if not sw:
+            raise AnchorMissing("match on the expression in transform_where_clause_for_event_type")
+        i_, si = sw[0]
+        a = arms(b, i_)
+        if "Or" not in a:
+            raise AnchorMissing("Or arm")
+        bad = []
+        for (bb, j_, v_, d_) in b.aggregates("option::Option", "Some"):
+            if d_ != [0] or bb not in a["Or"]:
+                continue
+            L = b.origins(v_["o"][0])
+            inst.sites.append(sp(b, bb) + " Or arm returns " + fmt_leaves(L)[:70])
+            if any(l[0] == "call" and norm_path(l[1]).endswith("transform_where_clause_for_event_type") for l in L):
+                bad.append(("or-half-kept", "for `A.x OR B.y` transform_where_clause_for_event_type keeps `x` alone for type A and `y` alone for type B; both halves are then applied (sub-query and matcher), so the OR is evaluated as AND: a pair that satisfies one side only is lost, and `NOT (A.x AND B.y)` becomes `NOT A.x AND NOT B.y`", sp(b, bb)))
+        return bad[:1]
+    ctx.run("C15.p", "K6 TABLE", "sequence::utils::transform_where_clause_for_event_type (Or arm)", "a cross-event OR is not narrowed to one of its sides", p_)
 
     def f_(inst):
         """Times are signed (events before 1970 have negative epoch seconds). The matcher and the grouper order rows by the i64 the
